@@ -4,6 +4,13 @@ import json, os, subprocess
 V = os.path.dirname(os.path.abspath(__file__))
 
 CHECKS = {
+ 'C14': dict(cat='model_checking', tech='control-flow trace enumeration of the shipped machine code under x86 single-step over a secret-value alphabet per public shape (set of traces must have size 1); exhaustive SAFE-vs-FAST differential over the same alphabet',
+             text='For every SAFE/FAST pair the sources declare (33; a new pair without a descriptor is itself reported), every operand length 0..8 (thorough 0..16) words / octet counts 0..33 (0..69) and every modulus class: '
+                  'both editions are called on every tuple of the secret alphabet (equal, first difference at every position in both directions, boundaries, multiples of the modulus) and must agree (reductions also with the exact formula), '
+                  'and the regular edition is executed under the trap flag on every tuple: the set of distinct instruction-address traces (library and libc, allocator excluded) per (build, routine, shape) must be a singleton. '
+                  'Same for beltMAC/DWP/CHE/Hash/HMAC StepV(2), bashHashStepV over keys x data x {right tag, tag wrong in each octet} (one trace including accept/reject), beltKWPUnwrap (one trace per outcome), '
+                  'and the primitives beltBlockEncr/Decr, beltWBLStepE/D, beltCompr, bashF over keys x data; on the gcc -O2 and -O3 codegens (thorough: also clang -O2, gcc -O1).',
+             note='trusted: x86 TF single-step delivery by the kernel, compilers; secret values by alphabets, lengths/moduli enumerated; data-access addresses not compared (safe.h excludes cache effects)', ref='4/C14'),
  'C19': dict(cat='model_checking', tech='exhaustive replay of the bounded shape corpora on 14 differently built copies of the real library; differential oracle against the primary configuration',
              text='The octet-string level corpora of the functional checks (every length / level / alphabet class within their bounds) are executed by each configuration of the build matrix '
                   '(64/32-bit words, SAFE/SAFE_FAST, NDEBUG on/off, -O0/-O1/-O2/-O3, gcc/clang, BASH_64/32/SSE2/AVX2/AVX512) and the digest of (err_t, outputs) must equal the primary configuration '
